@@ -175,7 +175,7 @@ func (g *gen) execFgLine(good bool) gline {
 func (g *gen) execBgLine(kind string) (gline, bool) {
 	s := g.st
 	name := ""
-	if g.chance(45) {
+	if g.chance(55) {
 		name = g.pick(bgNames)
 		if s.findBg(name) >= 0 {
 			return gline{}, false
@@ -188,7 +188,7 @@ func (g *gen) execBgLine(kind string) (gline, bool) {
 	if kind == "" && g.chance(8) { // start error under `!`
 		return gline{text: "! exec nosuchprog-zz " + spec, apply: func() { s.stdout, s.stderr = "", "" }, tag: "neg-exec-bg-notfound"}, true
 	}
-	neg := g.chance(40)
+	neg := g.chance(35)
 	block := g.chance(35)
 	succeeds := false
 	switch kind {
@@ -230,7 +230,7 @@ func (g *gen) execBgLine(kind string) (gline, bool) {
 func (g *gen) waitLine(good bool) (gline, bool) {
 	s := g.st
 	// wait NAME
-	if g.chance(35) {
+	if g.chance(50) {
 		var named []int
 		for i, b := range s.bgs {
 			if b.name != "" && s.findBg(b.name) == i {
@@ -276,7 +276,7 @@ func (g *gen) waitLine(good bool) (gline, bool) {
 func (g *gen) killLine() (gline, bool) {
 	s := g.st
 	sig := g.pick([]string{"", "", " -INT", " -KILL"})
-	if g.chance(40) {
+	if g.chance(60) {
 		var named []int
 		for i, b := range s.bgs {
 			if b.name != "" && s.findBg(b.name) == i && b.blocks && !b.signalled {
@@ -306,6 +306,27 @@ func (g *gen) killLine() (gline, bool) {
 
 // bgGoodLine: one good line of the exec / background family.
 func (g *gen) bgGoodLine() (gline, bool) {
+	// blocking helpers outstanding: signal them (so that a later wait / skip can tell); signalled or
+	// self-terminating ones: wait for them
+	live, signalled := 0, 0
+	for _, b := range g.st.bgs {
+		if b.blocks && !b.signalled {
+			live++
+		}
+		if b.blocks && b.signalled {
+			signalled++
+		}
+	}
+	if live > 0 && g.chance(35) {
+		if l, ok := g.killLine(); ok {
+			return l, true
+		}
+	}
+	if signalled > 0 && g.chance(50) {
+		if l, ok := g.waitLine(true); ok {
+			return l, true
+		}
+	}
 	switch g.rng.Intn(10) {
 	case 0, 1, 2:
 		return g.execFgLine(true), true
